@@ -1215,6 +1215,60 @@ func evalChain(st *State, sv schemaView, chain []filterStep) map[uint32]bool {
 	return sel
 }
 
+// ascendFiltered: Ascend under a filter chain visits exactly the selected rows that hold a
+// value, each once, in non-decreasing order of the values read.
+func (h *history) ascendFiltered(chain []filterStep, st *State, sv schemaView) {
+	m := h.wd.M
+	sx := m.Sorted[h.rng.Intn(len(m.Sorted))]
+	col := m.col(sx.Col)
+	var rows []uint32
+	var vals []string
+	h.wd.P.Query(func(txn *column.Txn) error {
+		applyChain(txn, m, chain)
+		txn.Ascend(sx.Name, func(idx uint32) {
+			rows = append(rows, idx)
+			v, ok := readCell(txn, column.Row{}, col, true)
+			if !ok {
+				vals = append(vals, "\x00<absent>")
+			} else {
+				vals = append(vals, v.S)
+			}
+		})
+		return nil
+	})
+	desc := ""
+	for _, f := range chain {
+		desc += f.String() + "."
+	}
+	sel := evalChain(st, sv, chain)
+	var want []uint32
+	for _, r := range st.Rows {
+		if _, ok := st.Cells[sx.Col][r]; ok && sel[r] {
+			want = append(want, r)
+		}
+	}
+	got := append([]uint32(nil), rows...)
+	sort.Slice(got, func(i, j int) bool { return got[i] < got[j] })
+	h.stats["ascend_filtered"]++
+	h.stats["ascend_rows"] += int64(len(rows))
+	for i := 1; i < len(got); i++ {
+		if got[i] == got[i-1] {
+			h.violate("sorted", fmt.Sprintf("%sAscend(%s): row %d visited twice", desc, sx.Name, got[i]), "")
+			return
+		}
+	}
+	if !sameRows(got, want) {
+		h.violate("sorted", fmt.Sprintf("%sAscend(%s): %s", desc, sx.Name, rowsDiff(got, want)), "")
+		return
+	}
+	for i := 1; i < len(vals); i++ {
+		if vals[i] < vals[i-1] {
+			h.violate("sorted", fmt.Sprintf("%sAscend(%s): row %d (%q) visited after row %d (%q)", desc, sx.Name, rows[i], vals[i], rows[i-1], vals[i-1]), "")
+			return
+		}
+	}
+}
+
 func (h *history) filterCheck() {
 	m := h.wd.M
 	sv := m.view(h.wd.Keys)
@@ -1253,6 +1307,12 @@ func (h *history) filterCheck() {
 		}
 		return nil
 	})
+	if h.cfg.Oracles["sorted"] && len(m.Sorted) > 0 {
+		h.ascendFiltered(chain, st, sv)
+	}
+	if !h.cfg.Oracles["filter"] {
+		return
+	}
 	desc := ""
 	for _, f := range chain {
 		desc += f.String() + "."
